@@ -863,6 +863,12 @@ def c10_r1(ctx):
         ctx.viol((w.id, "clean-skips-target"), "an existing target can be left in place by clean (a path reaches the next iteration without a back-up)", w.where(lp["header"]))
     else:
         ctx.ok()
+    # the loop is left early only with an error: an absent target must not end the traversal
+    for (a, b2) in w.loop_exits(lp):
+        r2 = w.reach([b2])
+        oks = [(bb, idx) for (bb, idx, rv, pl) in w.constructs("std::result::Result", "Ok") if pl["local"] == 0 and bb in (r2 | {a}) and not w.dominated_by_edges(bb, {lp["none"]})]
+        if oks:
+            ctx.viol((w.id, "clean-stops-early"), "clean can stop with success before every target of the rule was visited: the remaining targets stay in the workspace and never reach the cache", w.where(a))
     # an Err from back-up is returned, not swallowed
     for b in backs:
         ee = w.edges_of_call_variant(b, "Err")
@@ -1087,17 +1093,20 @@ def c06_r3(ctx):
     thread_reach = set()
     for (pf, cs, cl) in R.spawns():
         thread_reach |= ctx.P.reachable_fns([cl.id])
-    for c in mutator_sites(ctx.P):
-        if c.name not in ("rename",):
+    cands = []
+    for fid in sorted(thread_reach):
+        f0 = ctx.P.fns[fid]
+        if f0.body.get("in_test") or is_real_system(f0):
             continue
+        for c0 in sys_calls(f0, "rename", "open", "get_modified", "is_executable", "list_dir", "set_is_executable"):
+            cands.append(c0)
+    for c in cands:
         f = c.fn
-        if f.id not in thread_reach:
-            continue
-        # source path of the rename is a cache entry?
+        # the (source) path operated on is a cache entry?
         cls = classify_path_operand(ctx.P, f, c.args[1])
         if not (cls and all(x.startswith("rulerdir:cache::SysCache/+") for x in cls)):
             continue
-        ctx.inst("rename out of the cache in %s" % f.id, c.where)
+        ctx.inst("%s on a cache entry in %s" % (c.name, f.id), c.where)
         src = f.origins_of_operand(c.args[1])
         guards = [g for g in sys_calls(f, "is_file") if f.origins_of_operand(g.args[1]) == src and
                   f.dominated_by_edges(c.bb, f.bool_edges_of_call(g, True))]
@@ -1106,33 +1115,40 @@ def c06_r3(ctx):
             continue
         g = guards[0]
         false_targets = [x for (_, x) in f.bool_edges_of_call(g, False)]
-        false_results = _result_variants(f, false_targets)
+        false_results = _result_variants(f, false_targets, deep=True)
         err_edges = f.edges_of_call_variant(c, "Err")
         err_targets = [x for (_, x) in err_edges]
-        err_results = _result_variants(f, err_targets)
+        err_results = _result_variants(f, err_targets, deep=True)
         # accepted repaired shape: on the Err edge the path is re-tested and the `gone` answer gives the false-edge result
         retest = [g2 for g2 in sys_calls(f, "is_file") if g2 is not g and f.origins_of_operand(g2.args[1]) == src and f.dominated_by_edges(g2.bb, err_edges)]
         ok = False
         if err_results and err_results <= false_results:
             ok = True
         for g2 in retest:
-            gone = _result_variants(f, [x for (_, x) in f.bool_edges_of_call(g2, False)])
+            gone = _result_variants(f, [x for (_, x) in f.bool_edges_of_call(g2, False)], deep=True)
             if gone and gone <= false_results:
                 ok = True
         if ok:
             ctx.ok()
         else:
-            ctx.viol((f.id, "check-then-act", "is_file->rename"), "the cache entry can be taken by a sibling thread between is_file and rename; the rename's error then yields %s while a missing entry yields %s: two rules needing byte-identical files fail each other depending on scheduling" % (sorted(err_results), sorted(false_results)), c.where)
+            ctx.viol((f.id, "check-then-act", "is_file->" + c.name), "the cache entry can be taken by a sibling thread between is_file and %s; the %s's error then yields %s while a missing entry yields %s: two rules needing byte-identical files fail each other depending on scheduling" % (c.name, c.name, sorted(err_results), sorted(false_results)), c.where)
 
 
-def _result_variants(f, starts):
+def _result_variants(f, starts, deep=False):
     """Variant names assigned to _0 (directly) in blocks reachable from starts before return."""
     out = set()
     r = f.reach(starts)
     for b in r:
-        for s in f.blocks[b]["stmts"]:
+        for i, s in enumerate(f.blocks[b]["stmts"]):
             if s["k"] == "assign" and s["place"]["local"] == 0 and not s["place"]["proj"] and s["rv"]["k"] == "aggregate" and s["rv"]["kind"]["k"] == "adt":
-                out.add(s["rv"]["kind"]["variant"])
+                v = s["rv"]["kind"]["variant"]
+                if deep and s["rv"]["kind"]["adt"] == "std::result::Result" and s["rv"]["ops"]:
+                    inner = set()
+                    for o in f.origins_of_operand(s["rv"]["ops"][0]):
+                        if o[0][0] == "agg" and len(o) == 1:
+                            inner.add(o[0][4].split("::")[-1])
+                    v = "%s(%s)" % (v, "|".join(sorted(inner)) if inner else "_")
+                out.add(v)
     return out
 
 
@@ -1173,6 +1189,26 @@ def c06_r3b(ctx):
                 if b in f.call_at and (f.call_at[b].trait == SYS or call_effects(ctx.P, f.call_at[b])):
                     continue        # a further operation decides
                 work.extend(f.succ[b])
+            if rv & HARD == {"Err"} and "Result<" in f.body.get("output", {}).get("s", ""):
+                # an Err whose variant every thread-reachable caller maps to a benign verdict is not a hard error
+                errv = set()
+                for b0 in seen:
+                    for st in f.blocks[b0]["stmts"]:
+                        if st["k"] == "assign" and st["rv"]["k"] == "aggregate" and st["rv"]["kind"]["k"] == "adt" and st["rv"]["kind"]["adt"] not in ("std::result::Result",):
+                            errv.add(st["rv"]["kind"]["variant"])
+                callers = [cs for cs in ctx.P.callers.get(f.id, []) if cs.fn.id in thread_reach and not cs.fn.body.get("in_test")]
+                benign = bool(callers) and bool(errv)
+                for cs in callers:
+                    g2 = cs.fn
+                    payload = g2._call_origins(cs, (("variant", "Err"), ("field", 0)), frozenset())
+                    for v in errv:
+                        ev = g2.edges_of_value_variant(payload, v)
+                        res = _result_variants(g2, [x for (_, x) in ev]) if ev else {"?"}
+                        if not res or res & (HARD | {"?"}):
+                            benign = False
+                if benign:
+                    ctx.ok()
+                    continue
             if rv & HARD:
                 ctx.viol((f.id, "absent-entry-is-error", g.name), "finding a cache entry absent yields a hard error (%s): a sibling rule thread that needs the same bytes may have taken the entry, so verdict and final files depend on scheduling" % sorted(rv & HARD), g.where)
             else:
